@@ -294,6 +294,31 @@ theorem refs_in_grid_needed :
     (load [{ r := 0, cells := [{ r := .orig (some (-5, 1)), hv := true, id := some 0 }] }]).isPanic = true := by
   decide
 
+/-! ## unzip limits -/
+
+/-- the size check of `ReadZipReader` is the first thing done with an entry, before the branches that
+spool large worksheet / shared-string parts to temporary files -/
+theorem guards_zip :
+    Facts.C14.conds_ReadZipReader.head? = some "unzipSize > f.options.UnzipSizeLimit" ∧
+    Facts.C14.stmts_ReadZipReader_loop.take 3 =
+      ["fileSize := v.FileInfo().Size()", "unzipSize += fileSize", "if unzipSize > f.options.UnzipSizeLimit"] := by decide
+
+/-- clause "allocate memory out of proportion to the configured unzip limits": a package is accepted
+exactly when the declared sizes of ALL its entries (spooled or not) sum to at most `UnzipSizeLimit` -/
+theorem unzip_limit_exact (sizes : List Nat) (limit xmlLimit : Nat) (hx : xmlLimit ≤ limit) :
+    openLimits sizes limit xmlLimit = .ok () ↔ sizes.sum ≤ limit := by
+  unfold openLimits
+  rw [if_neg (by omega)]
+  have := zipAccount_iff sizes 0 limit (Nat.zero_le _)
+  simp only [Nat.zero_add] at this
+  constructor
+  · intro h
+    split at h
+    · rename_i hz; exact this.mp hz
+    · cases h
+  · intro h
+    rw [if_pos (this.mpr h)]
+
 /-! ## non-vacuity -/
 
 /-- the hypotheses are satisfiable and the guards do reject: unordered cells (Z1, C1, D1) load
